@@ -54,9 +54,12 @@ def plan(tier, seed):
         specs.append(dict(kind='history', sub=k, n=2 + k % 3,
                           steps=250 if tier == 'quick' else 1500,
                           hashseed=k))
+    # instances beyond truth tables (12-70 variables), see vf/big.py
+    from vf import big
+    specs.extend(big.specs(tier, seed, 'C10'))
     meta = dict(
         rule=RULE,
-        require=['history_queries', 'undeclare_calls',
+        require=['big_histories', 'history_queries', 'undeclare_calls',
                  'support_results', 'count_results', 'count_refusals',
                  'pick_iter_results', 'pick_results', 'assignments_checked',
                  'autoref_results'],
@@ -281,5 +284,8 @@ def history(ctx, spec):
 
 
 def run_shard(ctx, spec):
+    if spec['kind'] == 'big':
+        from vf import big
+        return ctx.guard('big', big.run, ctx, spec, case=spec)
     fn = dict(all=all_, history=history)[spec['kind']]
     ctx.guard(spec['kind'], fn, ctx, spec, case=spec)
